@@ -343,6 +343,33 @@ static void p4_run(uint64_t idx, vh_rng_t * rng) {
     if (vh_want_sample()) vh_sample("text \"%s\" -> ResultText -> ParamCopyText equal", vh_esc(s, m));
 }
 
+/* ---- long texts, on the stack of a small task: an embedded application runs the parser in a task with a few KiB of stack. The library's
+ * stack use must not grow with the data it formats (the text itself lives in the caller's memory and in the input buffer) ------------------- */
+#include <pthread.h>
+#include <sys/mman.h>
+static struct { const char * s; size_t m; } p9_arg;
+static void * p9_thread(void * a) { (void) a; text_case(p9_arg.s, p9_arg.m); return NULL; }
+static const size_t p9_lens[] = { 1000, 5000, 20000, 48000, 100000 };
+static uint64_t p9_count(int thorough) { return thorough ? 25 : 10; }
+static void p9_run(uint64_t idx, vh_rng_t * rng) {
+    size_t m = p9_lens[idx % 5], i; char * s = (char *) malloc(m + 1); pthread_t th; pthread_attr_t at; size_t stksz = 96 * 1024; void * stk;
+    for (i = 0; i < m; i++) { uint32_t r = vh_below(rng, 16); s[i] = r == 0 ? '"' : r == 1 ? '\'' : (char) ('a' + vh_below(rng, 26)); }
+    s[m] = 0;
+    vh_case_desc("text of %zu characters formatted and read back on a 96 KiB task stack", m);
+    if (V) { vh_ctx_free(V); V = NULL; }
+    g_inbuf = 2 * m + 64; ctx_fresh(); /* the context and its buffers are created by the main task */
+    stk = mmap(NULL, stksz + 4096, PROT_READ | PROT_WRITE, MAP_PRIVATE | MAP_ANONYMOUS, -1, 0);
+    if (stk == MAP_FAILED) { free(s); return; }
+    mprotect(stk, 4096, PROT_NONE); /* guard page below the stack: running over it is a fault, not silent corruption */
+    pthread_attr_init(&at); pthread_attr_setstack(&at, (char *) stk + 4096, stksz);
+    p9_arg.s = s; p9_arg.m = m;
+    if (pthread_create(&th, &at, p9_thread, NULL) == 0) { pthread_join(th, NULL); vh_count("text.long_on_small_task_stack", 1); }
+    pthread_attr_destroy(&at); munmap(stk, stksz + 4096);
+    if (V) { vh_ctx_free(V); V = NULL; }
+    g_inbuf = INBUF;
+    free(s);
+}
+
 /* ---- blocks ---------------------------------------------------------------------------------------- */
 static uint64_t p5_count(int thorough) { return thorough ? 1101 * 8 : 1101; }
 static void p5_run(uint64_t idx, vh_rng_t * rng) {
@@ -500,12 +527,12 @@ int main(int argc, char ** argv) {
     static const vh_phase_t phases[] = {
         { "int8+16 exhaustive", p0_count, p0_run }, { "int32", p1_count, p1_run }, { "int64", p2_count, p2_run },
         { "strings exhaustive", p3_count, p3_run }, { "strings random", p4_count, p4_run }, { "blocks", p5_count, p5_run },
-        { "floating point", p6_count, p6_run }, { "ascii arrays", p7_count, p7_run }, { "ascii arrays longer than 32767 items", p8_count, p8_run },
+        { "floating point", p6_count, p6_run }, { "ascii arrays", p7_count, p7_run }, { "ascii arrays longer than 32767 items", p8_count, p8_run }, { "long texts on a small task stack", p9_count, p9_run },
     };
     int rc;
     vh_decoy_enable(7); vh_require("decoy.messages_run_on_a_second_context"); vh_require("int.roundtrips"); vh_require("text.roundtrips"); vh_require("text.with_double_quote"); vh_require("block.roundtrips");
     vh_require("block.empty"); vh_require("block.len_ge_1000"); vh_require("fp.double_roundtrips"); vh_require("fp.float_roundtrips"); vh_require("array.roundtrips");
-    vh_require("int.negative64"); vh_require("array.double_items_over_the_full_range"); vh_require("fp.power_of_two_or_neighbour"); vh_require("array.long.more_than_32768_items"); vh_require("array.long.more_than_65536_items");
-    rc = vh_main(argc, argv, "C07", phases, 9);
+    vh_require("int.negative64"); vh_require("text.long_on_small_task_stack"); vh_require("array.double_items_over_the_full_range"); vh_require("fp.power_of_two_or_neighbour"); vh_require("array.long.more_than_32768_items"); vh_require("array.long.more_than_65536_items");
+    rc = vh_main(argc, argv, "C07", phases, 10);
     return rc;
 }
